@@ -126,6 +126,11 @@ func genPipeShape() error {
 		return fail("pipe._backgroundWrite not found")
 	}
 	boolv("writerCountsBatches", strings.Contains(src(fset, wr.Body), "if ch != nil { p.wcnt++ }"))
+	// the batch is counted BEFORE its first byte can reach the connection (Rv/Model/WriterLoop.lean, `before := true`):
+	// exactly one increment, unconditional on the write's outcome, textually ahead of the only loop that calls writeCmd
+	wrs := src(fset, wr.Body)
+	cntAt, loopAt, wcAt := strings.Index(wrs, "if ch != nil { p.wcnt++ }"), strings.Index(wrs, "for _, cmd := range multi {"), strings.Index(wrs, "writeCmd(")
+	boolv("writerCountsBeforeWrite", cntAt >= 0 && loopAt > cntAt && wcAt > loopAt && strings.Count(wrs, "p.wcnt") == 1)
 	// --- admission: Do / DoMulti start with the ctx.Err() check and wait with a select on ctx.Done
 	for _, fn := range []string{"Do", "DoMulti"} {
 		fd := findFunc(pf, "pipe", fn)
